@@ -77,7 +77,15 @@ CLAIM = {
             'pathloss, W/big_W, noise_var, last_noise, corrupt_concatenated_data, get_Hk_with_ext_int, '
             'set_pathloss() and mutators before the first init are modelled (observers_return_current); the '
             'fresh-twin comparison (object after a history == new object with the current configuration) and '
-            'objects shared between users are oracle-only (the reads-change-nothing theorem is the model side).',
+            'objects shared between users are oracle-only (the reads-change-nothing theorem is the model side). '
+            'R1 per argument ELEMENT (round 4): element types that differ ACROSS the blocks of one list-of-arrays '
+            'argument (real int / float16-64 / complex64 / complex128 in every position, first-real-later-complex '
+            'and the reverse) for corrupt_data (plain, ExtInt user + interference blocks, object-array / list / '
+            'tuple containers), corrupt_concatenated_data (caller-stacked), set_post_filter (filters) and the two '
+            'parts of the ExtInt path loss (integer next to fractional); the stacked transmit data that '
+            'corrupt_data hands to corrupt_concatenated_data is observed by wrapping that method on the instance '
+            'and compared with the model op stackData (theorems stacked_data_keeps_every_block, '
+            'corrupt_is_split_of_corruptCat) and with the first-principles stack.',
 }
 
 PL_VALUES = [Fraction(1), Fraction(1, 4), Fraction(1, 16), Fraction(1, 64), Fraction(4), Fraction(9, 16),
@@ -181,8 +189,8 @@ def gint(rng, r, c, lo=-3, hi=3, real=False, e=0):
             for _ in range(r)]
 
 
-def gfloat(rng, r, c, s=1.0):
-    return [[[repr(rng.gauss() * s), repr(rng.gauss() * s)] for _ in range(c)] for _ in range(r)]
+def gfloat(rng, r, c, s=1.0, real=False):
+    return [[[repr(rng.gauss() * s), '0' if real else repr(rng.gauss() * s)] for _ in range(c)] for _ in range(r)]
 
 
 class Gen:
@@ -215,7 +223,7 @@ class Gen:
     def mat(self, r, c, e, real=False):
         if self.exact:
             return gint(self.rng, r, c, real=real, e=e)
-        return gfloat(self.rng, r, c, 10.0 ** e)
+        return gfloat(self.rng, r, c, 10.0 ** e, real=real)
 
     def fmt(self, real, allow_list=False, const=False):
         """dtype / memory layout of an array argument (R1, R2)"""
@@ -228,6 +236,37 @@ class Gen:
                 f['dt'] = rng.choice(INT_DT + REALF_DT + ['complex64', None])
             else:
                 f['dt'] = rng.choice(['complex64', None])
+        return f
+
+    def block_kinds(self, n):
+        """which blocks of a list-of-arrays argument are real valued (R1 per argument ELEMENT): all complex, all
+        real, first real / later complex, first complex / later real, or any mixture"""
+        rng = self.rng
+        u = rng.uniform()
+        if n == 1 or u < (0.25 if self.mode == 'typed' else 0.6):
+            k = rng.chance(0.5) if self.mode == 'typed' else False
+            return [k] * n
+        if u < 0.5 if self.mode == 'typed' else u < 0.75:
+            return [True] + [False] * (n - 1)
+        if u < 0.7 if self.mode == 'typed' else u < 0.85:
+            return [False] + [True] * (n - 1)
+        ks = [rng.chance(0.5) for _ in range(n)]
+        return ks
+
+    def block_fmt(self, real, allow_list=False):
+        """element type / layout of ONE block: a real block really has a real (or integer) element type"""
+        rng = self.rng
+        f = {'dt': None, 'lay': 'C'}
+        if self.mode == 'typed' or rng.chance(0.15):
+            f['lay'] = rng.choice(LAYOUTS + (['list'] if allow_list else []))
+        if real:
+            if self.exact and self.mode != 'scaled':
+                f['dt'] = rng.choice(INT_DT + REALF_DT + ['float64', 'float64'] + (['complex64', None]
+                                                                                   if self.mode == 'typed' else []))
+            else:
+                f['dt'] = 'float64'
+        elif self.exact and self.mode == 'typed':
+            f['dt'] = rng.choice(['complex64', None])
         return f
 
     def pl_fmt(self, vals):
@@ -478,8 +517,23 @@ class Gen:
             s = 10.0 ** (2 * self.ed)
             p = [[repr(rng.uniform(0.01, 2.0) * s) for _ in range(K)] for _ in range(K)]
             pe = [[repr(rng.uniform(0.01, 2.0) * s) for _ in range(E)] for _ in range(K)]
-        self.ops.append({'op': 'setpl', 'p': p, 'pe': pe if self.ext else None, 'fp': self.pl_fmt(p),
-                         'fpe': self.pl_fmt(pe) if self.ext else None, 'scr': rng.chance(0.3)})
+        fp, fpe = self.pl_fmt(p), self.pl_fmt(pe) if self.ext else None
+        if self.ext and self.exact and self.mode != 'scaled' and rng.chance(0.3):
+            # an integer valued (integer dtype) part next to a fractional (floating) part, in either order
+            ints = [str(rng.choice([1, 4, 9, 16])) for _ in range(K * max(K, E))]
+            frac = [str(rng.choice([Fraction(1, 4), Fraction(9, 16), Fraction(1, 64), Fraction(25, 4)]))
+                    for _ in range(K * max(K, E))]
+            if rng.chance(0.5):
+                p = [[ints[k * K + l] for l in range(K)] for k in range(K)]
+                pe = [[frac[k * E + l] for l in range(E)] for k in range(K)]
+                fp, fpe = {'dt': rng.choice(INT_DT + ['uint8']), 'lay': fp['lay']}, {'dt': rng.choice(REALF_DT), 'lay': 'C'}
+            else:
+                p = [[frac[k * K + l] for l in range(K)] for k in range(K)]
+                pe = [[ints[k * E + l] for l in range(E)] for k in range(K)]
+                fp, fpe = {'dt': rng.choice(REALF_DT), 'lay': fp['lay']}, {'dt': rng.choice(INT_DT + ['uint8']), 'lay': 'C'}
+            fp['mixed'] = True
+        self.ops.append({'op': 'setpl', 'p': p, 'pe': pe if self.ext else None, 'fp': fp,
+                         'fpe': fpe if self.ext else None, 'scr': rng.chance(0.3)})
 
     def op_noise(self):
         rng = self.rng
@@ -507,10 +561,10 @@ class Gen:
             self.ops.append({'op': 'setw', 'w': None})
             self.w_none = True
         else:
-            real = self.mode == 'typed' and rng.chance(0.5)
-            w = [self.mat(n, rng.randint(1, n), self.ec, real=real) for n in self.nr]
-            self.ops.append({'op': 'setw', 'w': w, 'as_list': rng.chance(0.5), 'fw': self.fmt(real, allow_list=True),
-                             'scr': rng.chance(0.3)})
+            kinds = self.block_kinds(len(self.nr))
+            w = [self.mat(n, rng.randint(1, n), self.ec, real=r) for n, r in zip(self.nr, kinds)]
+            self.ops.append({'op': 'setw', 'w': w, 'as_list': rng.chance(0.5),
+                             'fws': [self.block_fmt(r, allow_list=True) for r in kinds], 'scr': rng.chance(0.3)})
             self.w_none = False
         self.w_ok = True
 
@@ -546,12 +600,15 @@ class Gen:
         if not self.w_ok:
             self.op_setw()
         ns = rng.choice([1, 1, 2, 3, 0]) if rng.chance(0.5) else rng.randint(1, 3)
-        real = self.mode == 'typed' and rng.chance(0.5)
-        x = [self.mat(n, ns, self.eb, real=real) for n in self.nt]
-        xe = [self.mat(n, ns, self.eb, real=real) for n in self.ntE]
+        kinds = self.block_kinds(len(self.nt) + len(self.ntE))
+        x = [self.mat(n, ns, self.eb, real=r) for n, r in zip(self.nt, kinds)]
+        xe = [self.mat(n, ns, self.eb, real=r) for n, r in zip(self.ntE, kinds[len(self.nt):])]
         kind = 'corruptc' if rng.chance(0.25) else 'corrupt'
-        self.ops.append({'op': kind, 'x': x, 'xe': xe, 'nseed': rng.below(1 << 31), 'ns': ns,
-                         'fx': self.fmt(real, allow_list=(kind == 'corrupt')), 'scr': rng.chance(0.3)})
+        fxs = [self.block_fmt(r, allow_list=(kind == 'corrupt')) for r in kinds]
+        self.ops.append({'op': kind, 'x': x, 'xe': xe, 'nseed': rng.below(1 << 31), 'ns': ns, 'fxs': fxs,
+                         'fx': {'dt': None, 'lay': rng.choice(LAYOUTS) if self.mode == 'typed' else 'C'},
+                         'xcont': rng.choice(['objarr', 'objarr', 'list', 'tuple']) if not self.ext else 'objarr',
+                         'scr': rng.chance(0.3)})
         last_nv = [o for o in self.ops if o['op'] == 'noise' and not o.get('expect')]
         if last_nv and last_nv[-1]['v'] is not None and Fraction(last_nv[-1]['v']) > 0:
             self.nv_pos = True
@@ -787,7 +844,8 @@ def run_impl(case, want_obj=False):
                     if op['w'] is None:
                         ch.set_post_filter(None)
                     else:
-                        ws = [Arg('filter%d' % i, unj(w), op.get('fw')) for i, w in enumerate(op['w'])]
+                        fws = op.get('fws') or [op.get('fw')] * len(op['w'])
+                        ws = [Arg('filter%d' % i, unj(w), fws[i]) for i, w in enumerate(op['w'])]
                         args += ws
                         objs = [w.obj for w in ws]
                         ch.set_post_filter(objs if (op.get('as_list') or any(isinstance(o, list) for o in objs))
@@ -826,19 +884,38 @@ def run_impl(case, want_obj=False):
                 elif kind in ('corrupt', 'corruptc'):
                     ch.set_noise_seed(op['nseed'])
                     ns = op.get('ns')
-                    xs = [Arg('data%d' % i, unj(m) if ns is None else unj(m).reshape(len(m), ns), op.get('fx'))
+                    nb = len(op['x']) + len(op['xe'])
+                    fxs = op.get('fxs') or [op.get('fx')] * nb
+                    xs = [Arg('data%d' % i, unj(m) if ns is None else unj(m).reshape(len(m), ns), fxs[i])
                           for i, m in enumerate(op['x'])]
-                    xes = [Arg('ext_data%d' % i, unj(m) if ns is None else unj(m).reshape(len(m), ns), op.get('fx'))
-                           for i, m in enumerate(op['xe'])]
+                    xes = [Arg('ext_data%d' % i, unj(m) if ns is None else unj(m).reshape(len(m), ns),
+                               fxs[len(op['x']) + i]) for i, m in enumerate(op['xe'])]
                     args += xs + xes
                     if kind == 'corruptc':
-                        big = Arg('data', np.vstack([np.asarray(a.obj) for a in xs + xes]), op.get('fx'))
+                        # the caller stacks (numpy promotes over all blocks) and may pass any layout
+                        big = Arg('data', np.vstack([np.asarray(a.obj) for a in xs + xes]),
+                                  {'dt': None, 'lay': (op.get('fx') or {}).get('lay', 'C')})
                         args = [big]
                         rec['out'] = ch.corrupt_concatenated_data(big.obj)
-                    elif ext:
-                        rec['out'] = ch.corrupt_data(objarr([a.obj for a in xs]), objarr([a.obj for a in xes]))
                     else:
-                        rec['out'] = ch.corrupt_data(objarr([a.obj for a in xs]))
+                        # what corrupt_data hands to corrupt_concatenated_data (the stacked transmit data)
+                        seen = []
+                        inner = ch.corrupt_concatenated_data
+
+                        def spy(data, _inner=inner, _seen=seen):
+                            _seen.append(np.array(data))
+                            return _inner(data)
+                        ch.corrupt_concatenated_data = spy
+                        try:
+                            cont = {'objarr': objarr, 'list': list, 'tuple': tuple}[op.get('xcont', 'objarr')]
+                            if ext:
+                                rec['out'] = ch.corrupt_data(objarr([a.obj for a in xs]),
+                                                             objarr([a.obj for a in xes]))
+                            else:
+                                rec['out'] = ch.corrupt_data(cont([a.obj for a in xs]))
+                        finally:
+                            del ch.corrupt_concatenated_data
+                            rec['stacked'] = seen[0] if seen else None
                 else:
                     raise core.Infra('unknown op %r' % kind)
             except core.Infra:
@@ -956,7 +1033,12 @@ def model_line(case, recs):
         kind = op['op']
         if op.get('oracle_only'):
             continue
-        idx.append(j)
+        if kind == 'corrupt' and not op.get('expect'):
+            # the stacked transmit data that corrupt_data hands on (model op `stackData`)
+            idx.append((j, 'stack'))
+            toks.append('stack!%s!%s' % ('|'.join(jm_tok(m) for m in op['x']) or '#',
+                                         '|'.join(jm_tok(m) for m in op['xe']) or '#'))
+        idx.append((j, 'main'))
         if kind in ('init', 'rand'):
             if kind == 'init':
                 M = jm_tok(op['M'])
@@ -1092,10 +1174,28 @@ def eqv(va, vb, exact):
     return float(va) == float(vb)
 
 
+def block_pattern(op):
+    """element-type pattern of a list-of-arrays argument: which blocks are real, which complex"""
+    fs = op.get('fxs') or op.get('fws')
+    blocks = (op.get('x') or []) + (op.get('xe') or []) if op.get('fxs') else (op.get('w') or [])
+    if not fs or not blocks:
+        return 'uniform'
+    real = [all(Fraction(z[1]) == 0 for row in b for z in row) and (f or {}).get('dt') not in (None, 'complex64')
+            for b, f in zip(blocks, fs)]
+    if all(real) or not any(real):
+        return 'uniform'
+    if real[0] and not any(real[1:]):
+        return 'first-real-later-complex'
+    if not real[0] and all(real[1:]):
+        return 'first-complex-later-real'
+    return 'real-first-mixed' if real[0] else 'complex-first-mixed'
+
+
 def op_tags(op, case):
     """R-classes an operation belongs to (computed from the input)"""
     t = set()
-    fm = [op.get(k) for k in ('fM', 'fp', 'fpe', 'fw', 'fx') if op.get(k)]
+    fm = [op.get(k) for k in ('fM', 'fp', 'fpe', 'fw', 'fx') if op.get(k)] + \
+        [f for f in (op.get('fxs') or []) + (op.get('fws') or []) if f]
     if any(f.get('dt') for f in fm) or op.get('nrf', 'array') not in ('array',) or op.get('ntf', 'array') != 'array' \
             or op.get('kf', 'py') != 'py' or op.get('vf', 'float') != 'float' or op.get('ntef', 'array') != 'array':
         t.add('R1')
@@ -1307,6 +1407,13 @@ def oracle_history(case):
                     out.append((i, 'last_noise', klass('shape', i, True), 'last_noise shape %s' % (noise.shape,)))
                 else:
                     sh.ln = noise
+                    if kind == 'corrupt' and 'stacked' in rec:
+                        stacked = rec['stacked']
+                        rows = [row for x_ in xs for row in x_]
+                        wstack = np.array(rows, dtype=complex).reshape(len(rows), ns)
+                        if stacked is None or not same(stacked, wstack, exact):
+                            out.append((i, call, klass('stacked-data-wrong:%s' % block_pattern(op), i, True),
+                                        'the data handed to corrupt_concatenated_data is not the stack of the blocks'))
                     if kind == 'corrupt':
                         want = sh.received(xs, noise)
                         if len(got) != K:
@@ -1357,11 +1464,27 @@ def _oracle_for(call):
     return f
 
 
+def _harness_oracle(case):
+    try:
+        oracle_history(case)
+    except core.Infra:
+        raise
+    except Exception as e:      # noqa
+        return 'unexpected:%s:%s' % (type(e).__name__, case['cls']), repr(e)[:300]
+    return None
+
+
 ORACLES = {c: _oracle_for(c) for c in sorted(set(CALLS.values()) | {'last_noise', 'fresh-twin'})}
+ORACLES['harness'] = _harness_oracle
 
 
 def replay(ctx, rep):
-    return ORACLES[rep['call']](rep['case']) is not None
+    try:
+        return ORACLES[rep['call']](rep['case']) is not None
+    except core.Infra:
+        raise
+    except Exception:           # noqa
+        return True
 
 
 def well_shaped(case):
@@ -1445,7 +1568,17 @@ def minimise(case, call, cls):
 def run_oracle(ctx, case, key, budget=[0]):
     if not well_shaped(case):
         raise core.Infra('generator produced an ill-shaped history: %s' % json.dumps(case)[:400])
-    viol = oracle_history(case)
+    try:
+        viol = oracle_history(case)
+    except core.Infra:
+        raise
+    except Exception as e:      # noqa: never exit 2 because the changed library returned something unexpected
+        import traceback
+        viol = [(len(case['ops']) - 1, 'harness', 'unexpected:%s:%s' % (type(e).__name__, case['cls']),
+                 traceback.format_exc()[-600:])]
+        ctx.fail('harness', viol[0][2], case, viol[0][3])
+        ctx.branch('oracle-fail:harness')
+        return viol
     ctx.count(('oracle', key), True, n=len(case['ops']))
     seen = set()
     for (i, call, cls, detail) in viol:
@@ -1522,6 +1655,13 @@ def note_branches(ctx, case):
         t = op_tags(op, case)
         if 'R1' in t:
             ctx.branch('r1:typed-argument')
+        if not op.get('expect') and k in ('corrupt', 'setw') and block_pattern(op) != 'uniform':
+            ctx.branch('r1:mixed-blocks:%s:%s' % ('corrupt_data' if k == 'corrupt' else 'set_post_filter',
+                                                   block_pattern(op)))
+            if k == 'corrupt' and case['cls'] == 'ext':
+                ctx.branch('r1:mixed-blocks:corrupt_data:ext')
+        if k == 'setpl' and (op.get('fp') or {}).get('mixed'):
+            ctx.branch('r1:mixed-blocks:set_pathloss-parts')
         if 'R2' in t:
             ctx.branch('r2:non-contiguous-argument')
         if op.get('scr'):
@@ -1556,8 +1696,16 @@ def correspond(ctx, cases, tag):
     for case in cases:
         if not well_shaped(case):
             raise core.Infra('generator produced an ill-shaped history: %s' % json.dumps(case)[:400])
-        recs = run_impl(case)
-        line, idx = model_line(case, recs)
+        try:
+            recs = run_impl(case)
+            line, idx = model_line(case, recs)
+        except core.Infra:
+            raise
+        except Exception as e:      # noqa: see run_oracle
+            import traceback
+            ctx.fail('harness', 'unexpected:%s:%s' % (type(e).__name__, case['cls']), case,
+                     traceback.format_exc()[-600:])
+            continue
         batch.append((case, recs, line, idx))
         note_branches(ctx, case)
     replies = []
@@ -1571,8 +1719,24 @@ def correspond(ctx, cases, tag):
             continue
         flags = nontrivial_flags(ops)
         rmr = False
-        for j, mt in zip(idx, mtoks):
+        for (j, part), mt in zip(idx, mtoks):
             op, rec = ops[j], recs[j]
+            try:
+                impl_token(op, rec)
+            except Exception as e:      # noqa: the library returned something no view can be read from
+                ctx.fail(CALLS[op['op']], 'unreadable-result:%s:%s' % (type(e).__name__, case['cls']),
+                         dict(case, ops=ops[:j + 1]), repr(e)[:300])
+                break
+            if part == 'stack':
+                st = rec.get('stacked')
+                it = ('mat=' + mat_tok(st)) if st is not None else ('err:' + str(rec['exc']))
+                ok = ctx.corr('%s:corrupt:stacked-data' % case['cls'],
+                              {'history': tag, 'id': hid, 'op': j} if it == mt else dict(case, at=j),
+                              it, mt, nontrivial=True, key=(tag, hid, j, 'stack'))
+                ctx.branch('op:%s:stacked-data' % case['cls'])
+                if not ok:
+                    break
+                continue
             it = impl_token(op, rec)
             name = '%s:%s' % (case['cls'], op['op'])
             ok = ctx.corr(name, {'history': tag, 'id': hid, 'op': j} if it == mt else dict(case, at=j),
@@ -1647,6 +1811,31 @@ def builtin_corpus():
                 {'op': 'bigH'}, {'op': 'Hk', 'k': 0}, re,
                 {'op': 'bigH'}, {'op': 'Hk', 'k': 0}, {'op': 'Hk', 'k': 1}, {'op': 'H'}, {'op': 'Hkl', 'k': 0, 'l': 1},
                 {'op': 'corrupt', 'x': [one(4), one(1)], 'xe': [one(n) for n in E2], 'nseed': 2, 'ns': 2}]})
+    # round 4 (seeded change C08_7): element types that differ ACROSS the blocks of one list-of-arrays argument
+    R = lambda rows: [[[str(v), '0'] for v in row] for row in rows]
+    for cls, E in (('plain', []), ('ext', [1])):
+        M1 = [row[:3 + sum(E)] for row in A]
+        for name, order in (('first-real-later-complex', 0), ('first-complex-later-real', 1)):
+            xr, xc = R([[1, -1], [1, 1]]), _m([[1 + 1j, 1 - 1j]])
+            x = [xr, xc] if order == 0 else [_m([[1 + 1j, 1 - 1j], [-1j, 2]]), R([[1, -1]])]
+            xe = [_m([[1j, -1j]])] if (E and order == 0) else ([R([[2, -1]])] if E else [])
+            kinds = [all(z[1] == '0' for row in b for z in row) for b in x + xe]
+            wr, wc = R([[2]]), _m([[1j], [1]])
+            w = [wr, wc] if order == 0 else [_m([[1j]]), R([[1], [2]])]
+            for dt in ('float64', 'int16', 'float32'):
+                cases.append({'cls': cls, 'stream': 'exact', 'mode': 'typed',
+                              'name': '%s-mixed-blocks-%s-%s' % (cls, name, dt), 'ops': [
+                    {'op': 'init', 'M': M1, 'nr': [1, 2], 'nt': [2, 1], 'K': 2, 'ntE': E},
+                    {'op': 'setpl', 'p': [['1', '1/4'], ['1/4', '1']], 'pe': [['1/16'], ['4']] if E else None},
+                    {'op': 'corrupt', 'x': x, 'xe': xe, 'nseed': 5, 'ns': 2,
+                     'fxs': [{'dt': dt if r else None, 'lay': 'C'} for r in kinds]},
+                    {'op': 'setw', 'w': w, 'as_list': True,
+                     'fws': [{'dt': dt if all(z[1] == '0' for row in b for z in row) else None, 'lay': 'C'} for b in w]},
+                    {'op': 'bigW'}, {'op': 'noise', 'v': '1'},
+                    {'op': 'corrupt', 'x': x, 'xe': xe, 'nseed': 6, 'ns': 2,
+                     'fxs': [{'dt': dt if r else None, 'lay': 'C'} for r in kinds]},
+                    {'op': 'corruptc', 'x': x, 'xe': xe, 'nseed': 7, 'ns': 2,
+                     'fxs': [{'dt': dt if r else None, 'lay': 'C'} for r in kinds]}]})
     # R4 (seeded change C08_3): rejected init_from_channel_matrix with ANOTHER antenna configuration in the
     # middle of a history; then every observable, then a transmission
     for cls, E in (('plain', []), ('ext', [2])):
@@ -1764,7 +1953,12 @@ REQUIRED = ['read-mutate-read:plain', 'read-mutate-read:ext', 'relayout:plain', 
             'r5:zero-symbols', 'r5:noise-var-zero-after-positive', 'r6:scaled-history',
             'r7:corrupt_concatenated_data', 'r7:mutators-before-first-init', 'r7:observer:layout',
             'r7:observer:ln', 'r7:twin', 'resplit-same-sums:plain:randomize', 'resplit-same-sums:plain:init',
-            'resplit-same-sums:ext:randomize', 'resplit-same-sums:ext:init', 'resplit-same-sums:ext-sources']
+            'resplit-same-sums:ext:randomize', 'resplit-same-sums:ext:init', 'resplit-same-sums:ext-sources',
+            'r1:mixed-blocks:corrupt_data:first-real-later-complex',
+            'r1:mixed-blocks:corrupt_data:first-complex-later-real', 'r1:mixed-blocks:corrupt_data:ext',
+            'r1:mixed-blocks:set_post_filter:first-real-later-complex',
+            'r1:mixed-blocks:set_post_filter:first-complex-later-real', 'r1:mixed-blocks:set_pathloss-parts',
+            'op:plain:stacked-data', 'op:ext:stacked-data']
 
 
 def check(ctx):
